@@ -325,6 +325,17 @@ type VerifyOpts struct {
 func (e *Engine) VerifyFunction(fn *ssa.Function, fc *FuncContract, opts VerifyOpts) *FuncResult {
 	res := e.verifyFunction(fn, fc, opts)
 	e.checkOptsUsed(fn, fc, res)
+	e.checkClausesBound(fn, fc, res)
+	if res != nil {
+		// bookkeeping notes are not abstractions: keep them out of the report
+		var keep []string
+		for _, n := range res.Notes {
+			if !strings.HasPrefix(n, "cs-hit:") && !strings.HasPrefix(n, "opt-used:") {
+				keep = append(keep, n)
+			}
+		}
+		res.Notes = keep
+	}
 	return res
 }
 
@@ -360,6 +371,47 @@ func (e *Engine) checkOptsUsed(fn *ssa.Function, fc *FuncContract, res *FuncResu
 			o.Failures = append(o.Failures, &Failure{Status: "static", Trace: []string{"no call named " + k[strings.Index(k, ".")+1:] + " was met"}})
 		}
 		res.Obligs = append(res.Obligs, o)
+	}
+}
+
+// checkClausesBound: a call-site clause whose callee is met on no explored path, and a loop clause whose
+// loop ordinal does not exist, would otherwise vanish without a trace (the contract has drifted from the
+// code: a call was removed or renamed, call-site ordinals shifted, a loop disappeared). They are reported
+// as UNBOUND obligations: visible in the output and the evidence, not counted as discharged.
+func (e *Engine) checkClausesBound(fn *ssa.Function, fc *FuncContract, res *FuncResult) {
+	if res == nil || res.Error != "" || res.Capped {
+		return
+	}
+	hit := map[string]bool{}
+	for _, n := range res.Notes {
+		if strings.HasPrefix(n, "cs-hit:") {
+			hit[n[len("cs-hit:"):]] = true
+		}
+	}
+	disp := displayNameFor(fn, fc)
+	for _, cs := range fc.CallSites {
+		if hit[strconv.Itoa(cs.Clause.Ord)] {
+			continue
+		}
+		props := cs.Clause.Props
+		if len(props) == 0 {
+			props = fc.Props
+		}
+		res.Obligs = append(res.Obligs, &Oblig{Name: fmt.Sprintf("%s/callsite(%s)#%d", disp, cs.Callee, cs.Clause.Ord), Fn: disp, Kind: "unbound", Props: props,
+			Text: "at call " + cs.Callee + ": " + cs.Clause.Text + " [UNBOUND: no call of " + cs.Callee + " is met on any explored path]", Engines: map[string]int{}})
+	}
+	n := len(e.loopsOf(fn).list)
+	var ords []int
+	for ord := range fc.Loops {
+		ords = append(ords, ord)
+	}
+	sort.Ints(ords)
+	for _, ord := range ords {
+		if ord >= 1 && ord <= n {
+			continue
+		}
+		res.Obligs = append(res.Obligs, &Oblig{Name: fmt.Sprintf("%s/loop%d", disp, ord), Fn: disp, Kind: "unbound", Props: fc.Props,
+			Text: fmt.Sprintf("loop %d clauses [UNBOUND: the function has %d loop(s)]", ord, n), Engines: map[string]int{}})
 	}
 }
 
